@@ -50,10 +50,33 @@ pub struct Source {
     pub log: bool,
     /// the kind of the terminal error of a faulty source: every kind but Interrupted is terminal
     pub fault_kind: io::ErrorKind,
+    /// the decisive call (1-based) in front of which `burst_len` interruptions are delivered (only if intr_pm > 0); 0 = never
+    pub burst_call: u64,
+    pub burst_len: u32,
     pending_intr: u32,
     cur_intr: u32,
     decided_intr: bool,
     decisive: u64,
+}
+
+/// Payload of an injected fault: the error a parser finally reports has to be THIS error, not a look-alike.
+#[derive(Debug)]
+pub struct FaultToken(pub u64);
+impl std::fmt::Display for FaultToken {
+    fn fmt(&self, f: &mut std::fmt::Formatter<'_>) -> std::fmt::Result {
+        write!(f, "injected fault #{}", self.0)
+    }
+}
+impl std::error::Error for FaultToken {}
+thread_local! {
+    /// token of the most recent injected source fault on this thread (0 = none yet)
+    pub static LAST_FAULT: std::cell::Cell<u64> = const { std::cell::Cell::new(0) };
+    static NEXT_FAULT: std::cell::Cell<u64> = const { std::cell::Cell::new(1) };
+}
+/// is `e` the very error the source injected last?
+pub fn is_last_fault(e: &io::Error) -> bool {
+    let want = LAST_FAULT.with(|c| c.get());
+    e.get_ref().and_then(|r| r.downcast_ref::<FaultToken>()).map_or(false, |t| t.0 == want && want != 0)
 }
 
 /// terminal error kinds a source or sink may fail with (anything but Interrupted)
@@ -87,6 +110,8 @@ impl Source {
             overrun_at: None,
             rng: crate::rng(seed, 0x5151),
             fault_kind: FAULT_KINDS[(seed.wrapping_mul(0x9E3779B97F4A7C15) >> 33) as usize % FAULT_KINDS.len()],
+            burst_call: if seed % 3 == 0 { 1 + (seed / 3) % 3 } else { 0 },
+            burst_len: [70u32, 130, 300][(seed / 9 % 3) as usize],
             stats: Rc::new(RefCell::new(SrcStats::default())),
             log: true,
             pending_intr: 0,
@@ -125,6 +150,10 @@ impl Read for Source {
             while self.pending_intr < self.max_intr && self.rng.gen_range(0..1000) < self.intr_pm {
                 self.pending_intr += 1;
             }
+            // a long burst of interruptions in front of one read (a signal storm): still only a delay
+            if self.intr_pm > 0 && self.burst_call == self.decisive + 1 {
+                self.pending_intr = self.burst_len;
+            }
             self.stats.borrow_mut().interrupts += self.pending_intr as u64;
             self.cur_intr = self.pending_intr;
         }
@@ -158,7 +187,9 @@ impl Read for Source {
                 if self.log {
                     crate::trace::rec(json!({"ev":"src","offered":offered,"kind":"err","n":0,"intr":intr,"ekind":format!("{:?}", kind)}));
                 }
-                return Err(io::Error::new(kind, "injected fault"));
+                let token = NEXT_FAULT.with(|c| { let t = c.get(); c.set(t + 1); t });
+                LAST_FAULT.with(|c| c.set(token));
+                return Err(io::Error::new(kind, FaultToken(token)));
             } else {
                 if self.log {
                     crate::trace::rec(json!({"ev":"src","offered":offered,"kind":"eof","n":0,"intr":intr}));
